@@ -72,15 +72,27 @@ static void k_square_avx_128(const u64 *a, const u64 *b, u64 *o1, u64 *o2)
     st4(o1, CH);
     st4(o2, CL);
 }
-// aliasing forms: result register is the same object as an operand
-K4_2(add_avx_alias_a, { C = A; Goldilocks::add_avx(C, C, B); })
-K4_2(add_avx_alias_b, { C = B; Goldilocks::add_avx(C, A, C); })
-K4_2(sub_avx_alias_a, { C = A; Goldilocks::sub_avx(C, C, B); })
-K4_2(sub_avx_alias_b, { C = B; Goldilocks::sub_avx(C, A, C); })
-K4_2(mult_avx_alias_a, { C = A; Goldilocks::mult_avx(C, C, B); })
-K4_2(mult_avx_alias_b, { C = B; Goldilocks::mult_avx(C, A, C); })
+// aliasing forms, systematically: the result register is the same object as operand a (:c=a) or b (:c=b);
+// for the two-output kernels c_h aliases a and c_l aliases b.  The documented preconditions are unchanged.
+#define K4_2ALIAS(name)                                                                   \
+    K4_2(name##_alias_a, { C = A; Goldilocks::name(C, C, B); })                           \
+    K4_2(name##_alias_b, { C = B; Goldilocks::name(C, A, C); })
+K4_2ALIAS(add_avx)
+K4_2ALIAS(add_avx_a_sc)
+K4_2ALIAS(add_avx_s_b_small)
+K4_2ALIAS(add_avx_b_small)
+K4_2ALIAS(sub_avx)
+K4_2ALIAS(sub_avx_s_b_small)
+K4_2ALIAS(mult_avx)
+K4_2ALIAS(mult_avx_8)
+K4_2ALIAS(reduce_avx_128_64)
+K4_2ALIAS(reduce_avx_96_64)
 K4_1(square_avx_alias, { C = A; Goldilocks::square_avx(C, C); })
-K4_2(add_avx_b_small_alias_a, { C = A; Goldilocks::add_avx_b_small(C, C, B); })
+K4_1(shift_avx_alias, { C = A; Goldilocks::shift_avx(C, C); })
+K4_1(toCanonical_avx_alias, { C = A; Goldilocks::toCanonical_avx(C, C); })
+K4_1(toCanonical_avx_s_alias, { C = A; Goldilocks::toCanonical_avx_s(C, C); })
+K4_22(mult_avx_128_alias, { CH = A; CL = B; Goldilocks::mult_avx_128(CH, CL, CH, CL); })
+K4_22(mult_avx_72_alias, { CH = A; CL = B; Goldilocks::mult_avx_72(CH, CL, CH, CL); })
 
 #ifdef __AVX512__
 static inline __m512i ld8(const u64 *p) { __m512i r; Goldilocks::load_avx512(r, (const E *)p); return r; }
@@ -129,14 +141,21 @@ static void k_square_avx512_128(const u64 *a, const u64 *b, u64 *o1, u64 *o2)
     st8(o1, CH);
     st8(o2, CL);
 }
-K8_2(add_avx512_alias_a, { C = A; Goldilocks::add_avx512(C, C, B); })
-K8_2(add_avx512_alias_b, { C = B; Goldilocks::add_avx512(C, A, C); })
-K8_2(sub_avx512_alias_a, { C = A; Goldilocks::sub_avx512(C, C, B); })
-K8_2(sub_avx512_alias_b, { C = B; Goldilocks::sub_avx512(C, A, C); })
-K8_2(mult_avx512_alias_a, { C = A; Goldilocks::mult_avx512(C, C, B); })
-K8_2(mult_avx512_alias_b, { C = B; Goldilocks::mult_avx512(C, A, C); })
+#define K8_2ALIAS(name)                                                                   \
+    K8_2(name##_alias_a, { C = A; Goldilocks::name(C, C, B); })                           \
+    K8_2(name##_alias_b, { C = B; Goldilocks::name(C, A, C); })
+K8_2ALIAS(add_avx512)
+K8_2ALIAS(add_avx512_b_c)
+K8_2ALIAS(sub_avx512)
+K8_2ALIAS(sub_avx512_b_c)
+K8_2ALIAS(mult_avx512)
+K8_2ALIAS(mult_avx512_8)
+K8_2ALIAS(reduce_avx512_128_64)
+K8_2ALIAS(reduce_avx512_96_64)
 K8_1(square_avx512_alias, { C = A; Goldilocks::square_avx512(C, C); })
-K8_2(add_avx512_b_c_alias_a, { C = A; Goldilocks::add_avx512_b_c(C, C, B); })
+K8_1(toCanonical_avx512_alias, { C = A; Goldilocks::toCanonical_avx512(C, C); })
+K8_22(mult_avx512_128_alias, { CH = A; CL = B; Goldilocks::mult_avx512_128(CH, CL, CH, CL); })
+K8_22(mult_avx512_72_alias, { CH = A; CL = B; Goldilocks::mult_avx512_72(CH, CL, CH, CL); })
 #endif
 
 #define ENT(name, lanes, nin, nout, spec) {#name, lanes, nin, nout, spec, k_##name}
@@ -158,14 +177,23 @@ static const KEntry entries[] = {
     ENT(reduce_avx_96_64, 4, 2, 1, S_RED96),
     ENT(square_avx, 4, 1, 1, S_SQ),
     ENT(square_avx_128, 4, 1, 2, S_SQ128),
-    ENT(add_avx_alias_a, 4, 2, 1, S_ADD),
-    ENT(add_avx_alias_b, 4, 2, 1, S_ADD),
-    ENT(sub_avx_alias_a, 4, 2, 1, S_SUB),
-    ENT(sub_avx_alias_b, 4, 2, 1, S_SUB),
-    ENT(mult_avx_alias_a, 4, 2, 1, S_MUL),
-    ENT(mult_avx_alias_b, 4, 2, 1, S_MUL),
+#define ENT2(name, lanes, spec) ENT(name##_alias_a, lanes, 2, 1, spec), ENT(name##_alias_b, lanes, 2, 1, spec)
+    ENT2(add_avx, 4, S_ADD),
+    ENT2(add_avx_a_sc, 4, S_ADD_A_SC),
+    ENT2(add_avx_s_b_small, 4, S_ADD_S_BSMALL),
+    ENT2(add_avx_b_small, 4, S_ADD_BSMALL),
+    ENT2(sub_avx, 4, S_SUB),
+    ENT2(sub_avx_s_b_small, 4, S_SUB_S_BSMALL),
+    ENT2(mult_avx, 4, S_MUL),
+    ENT2(mult_avx_8, 4, S_MUL8),
+    ENT2(reduce_avx_128_64, 4, S_RED128),
+    ENT2(reduce_avx_96_64, 4, S_RED96),
     ENT(square_avx_alias, 4, 1, 1, S_SQ),
-    ENT(add_avx_b_small_alias_a, 4, 2, 1, S_ADD_BSMALL),
+    ENT(shift_avx_alias, 4, 1, 1, S_SHIFT),
+    ENT(toCanonical_avx_alias, 4, 1, 1, S_CANON),
+    ENT(toCanonical_avx_s_alias, 4, 1, 1, S_CANON_S),
+    ENT(mult_avx_128_alias, 4, 2, 2, S_MUL128),
+    ENT(mult_avx_72_alias, 4, 2, 2, S_MUL72),
 #ifdef __AVX512__
     ENT(toCanonical_avx512, 8, 1, 1, S_CANON),
     ENT(add_avx512, 8, 2, 1, S_ADD),
@@ -180,14 +208,18 @@ static const KEntry entries[] = {
     ENT(reduce_avx512_96_64, 8, 2, 1, S_RED96),
     ENT(square_avx512, 8, 1, 1, S_SQ),
     ENT(square_avx512_128, 8, 1, 2, S_SQ128),
-    ENT(add_avx512_alias_a, 8, 2, 1, S_ADD),
-    ENT(add_avx512_alias_b, 8, 2, 1, S_ADD),
-    ENT(sub_avx512_alias_a, 8, 2, 1, S_SUB),
-    ENT(sub_avx512_alias_b, 8, 2, 1, S_SUB),
-    ENT(mult_avx512_alias_a, 8, 2, 1, S_MUL),
-    ENT(mult_avx512_alias_b, 8, 2, 1, S_MUL),
+    ENT2(add_avx512, 8, S_ADD),
+    ENT2(add_avx512_b_c, 8, S_ADD_BSMALL),
+    ENT2(sub_avx512, 8, S_SUB),
+    ENT2(sub_avx512_b_c, 8, S_SUB_BC),
+    ENT2(mult_avx512, 8, S_MUL),
+    ENT2(mult_avx512_8, 8, S_MUL8),
+    ENT2(reduce_avx512_128_64, 8, S_RED128),
+    ENT2(reduce_avx512_96_64, 8, S_RED96),
     ENT(square_avx512_alias, 8, 1, 1, S_SQ),
-    ENT(add_avx512_b_c_alias_a, 8, 2, 1, S_ADD_BSMALL),
+    ENT(toCanonical_avx512_alias, 8, 1, 1, S_CANON),
+    ENT(mult_avx512_128_alias, 8, 2, 2, S_MUL128),
+    ENT(mult_avx512_72_alias, 8, 2, 2, S_MUL72),
 #endif
 };
 
